@@ -750,6 +750,11 @@ pub fn gen_c01<W: Write>(w: &mut W, tier: &str, seed: u64) {
         // the limit and the step are evaluated once, after the variable was assigned
         (vec!["10 L=3:S=-1", "20 FOR I=9 TO L STEP S*2:L=0:S=5:PRINT I;:NEXT I", "30 FOR J=1 TO 2:FOR K=1 TO 2:PRINT J*10+K;:NEXT K,J:PRINT J;K"], " 9  7  5  3  11  12  21  22  3  3 \nREADY.\n"),
         (vec!["10 I=5:FOR I=1 TO I+1:PRINT I;:NEXT"], " 1  2 \nREADY.\n"),
+        // any non-zero value is true, however small; only zero (of either sign) is false
+        (vec!["10 IF 1E-9 THEN PRINT \"T\" ELSE PRINT \"F\"", "20 IF 1D-300 THEN PRINT \"T\" ELSE PRINT \"F\"", "30 IF -1E-38 THEN PRINT \"T\" ELSE PRINT \"F\"", "40 IF 0! THEN PRINT \"T\" ELSE PRINT \"F\"", "50 IF -0# THEN PRINT \"T\" ELSE PRINT \"F\""], "T\nT\nT\nF\nF\nREADY.\n"),
+        (vec!["10 X=1:N%=0", "20 WHILE X:X=X/1024:N%=N%+1:IF N%>40 THEN X=0", "30 WEND:PRINT N%"], " 15 \nREADY.\n"),
+        (vec!["10 X#=1#-.9999999999999999#:IF X# GOTO 30", "20 PRINT \"F\":END", "30 PRINT \"T\""], "T\nREADY.\n"),
+        (vec!["10 A=1E-20:B#=1D-200", "20 IF A THEN IF B# THEN PRINT \"TT\" ELSE PRINT \"TF\" ELSE PRINT \"F\""], "TT\nREADY.\n"),
     ];
     for (prog, expected) in zero {
         let mut v = vec![hex(expected)];
@@ -1387,6 +1392,16 @@ pub fn gen_c02<W: Write>(w: &mut W, tier: &str, seed: u64) {
             emit(w, "C02", "expectdirect", &[hex(&expected2), format!("PRINT {}\\1", lit)], &[]);
         }
     }
+    // literal typing as the output shows it: a Single prints at most 7-8 significant digits, a Double up to 17
+    let lits: [(&str, &str); 22] = [
+        ("1.234567E10", " 1.234567E10 "), ("1234567E5", " 1.234567E11 "), ("1.5E10", " 1.5E10 "), ("24E9", " 2.4E10 "), ("1E5", " 100000 "), ("1D5", " 100000 "),
+        ("1.234567E2=123.4567", "-1 "), ("3.333333E-10*3", " 9.999999E-10 "), ("1.2345678", " 1.2345678 "), ("12345678", " 12345678 "), ("1234567", " 1234567 "), ("32767", " 32767 "), ("32768", " 32768 "),
+        ("1/3", " 0.33333334 "), ("1#/3", " 0.3333333333333333 "), ("1D0/3", " 0.3333333333333333 "), ("1E0/3", " 0.33333334 "), ("0.1+0.2", " 0.3 "), ("0.1#+0.2#", " 3.0000000000000004E-1 "),
+        ("7!/2", " 3.5 "), ("7%/2", " 3.5 "), ("1.0000001E1", " 10.000001 "),
+    ];
+    for (e, want) in lits {
+        emit(w, "C02", "expectdirect", &[hex(&format!("{}\nREADY.\n", want)), format!("PRINT {}", e)], &[]);
+    }
     // promotion in mixed comparisons: a Single against a Double is compared as Doubles (the Single
     // widened exactly), never the Double narrowed; the same decimal as Single and as Double differ
     let decs = ["0.7", "0.1", "0.3", "1.1", "16777217", "3.3333333333", "123456.789", "1E-7", "0.5", "2", "-0.7", "-16777217", "1E10", "33554433", "0.2", "9.99999999"];
@@ -1501,6 +1516,11 @@ pub fn gen_c03<W: Write>(w: &mut W, tier: &str, seed: u64) {
     for c in corpus {
         let v: Vec<String> = c.iter().map(|s| s.to_string()).collect();
         emit(w, "C03", "fuzz", &v, &[]);
+    }
+    // LIST / DELETE with a range written backwards, above the limit, or with junk operands: an error, never a crash
+    for l in ["LIST 30-10", "DELETE 30-10", "LIST 65529-0", "DELETE 65529-1", "LIST 2-1", "LIST 10-9", "DELETE 20-19", "LIST 65530", "DELETE 70000-1", "LIST 1-70000", "LIST -", "DELETE -", "LIST 1.5", "DELETE 1E3", "LIST -5-", "LIST 10-20-30", "DELETE A", "LIST \"x\""] {
+        emit(w, "C03", "fuzz", &["10 REM a".to_string(), "20 REM b".to_string(), "30 REM c".to_string(), l.to_string(), format!("40 {}:PRINT 1", l), "RUN".to_string(), format!("IF 1 THEN {}", l), "PRINT 7".to_string()], &[]);
+        emit(w, "C03", "fuzz", &[l.to_string(), "PRINT 7".to_string()], &[]);
     }
     // one interrupt stops the interpreter whatever it is in the middle of: listing (direct, or a program
     // that lists itself for ever), waiting for INPUT / INKEY$, tracing, printing diagnostics, a loop
@@ -2224,5 +2244,64 @@ pub fn gen_c11_numbers<W: Write>(w: &mut W, tier: &str, seed: u64) {
         let dbl = digits > 7 || rng.chance(1, 3);
         let e = if exp == 0 { if dbl { format!("{}#", lit) } else { lit } } else { format!("{}{}{}", lit, if dbl { "D" } else { "E" }, exp) };
         emit(w, "C11", "signsym", &[e], &[]);
+    }
+}
+
+// ---------------------------------------------------------------------------------------------
+// fixed sessions for clauses that only show through the whole interpreter (C06 SWAP, C08 NEXT, C09/C10 editing)
+
+fn emit_sessions<W: Write>(w: &mut W, prop: &str, cases: &[(Vec<&str>, &str)]) {
+    for (lines, expected) in cases {
+        let mut v = vec![hex(expected)];
+        v.extend(lines.iter().map(|l| l.to_string()));
+        emit(w, prop, "session", &v, &[]);
+    }
+}
+
+/// C06: SWAP rejects mixed types leaving both unchanged (also seen after CONT), automatic dimension 10,
+/// distinctness of A, A%, A!, A#, A$ and A(...)
+pub fn gen_c06<W: Write>(w: &mut W, _tier: &str, _seed: u64) {
+    let cases: Vec<(Vec<&str>, &str)> = vec![
+        (vec!["10 A%=7:B!=2.5", "20 SWAP A%,B!", "30 PRINT \"after\"", "RUN", "PRINT A%;B!", "CONT", "PRINT A%;B!"], "?TYPE MISMATCH IN 20\nREADY.\n 7  2.5 \nREADY.\nafter\nREADY.\n 7  2.5 \nREADY.\n"),
+        (vec!["10 DIM A%(5),B#(2):A%(3)=4:B#(0)=1.5", "20 SWAP A%(3),B#(0)", "30 PRINT A%(3);B#(0)", "RUN", "CONT"], "?TYPE MISMATCH IN 20\nREADY.\n 4  1.5 \nREADY.\n"),
+        (vec!["10 A$=\"x\":B=3", "20 SWAP A$,B", "30 PRINT A$;B", "RUN", "CONT"], "?TYPE MISMATCH IN 20\nREADY.\nx 3 \nREADY.\n"),
+        (vec!["A=1:A%=2:A!=3:A#=4:A$=\"s\":A(1)=5:A%(1)=6:A$(1)=\"t\":PRINT A;A%;A!;A#;A$;A(1);A%(1);A$(1)"], " 1  2  3  4 s 5  6 t\nREADY.\n"),
+        (vec!["A=1:B=2:SWAP A,B:PRINT A;B:SWAP A(1),B:PRINT A(1);B:SWAP A$,B$:PRINT A$;B$;\".\""], " 2  1 \n 1  0 \n.\nREADY.\n"),
+        (vec!["PRINT Q(10);Q(0)", "PRINT Q(11)", "DIM Q(20)", "PRINT R(2,10)", "PRINT R(2)", "DIM S(3):PRINT S(4)"], " 0  0 \nREADY.\n?SUBSCRIPT OUT OF RANGE\nREADY.\n?REDIMENSIONED ARRAY\nREADY.\n 0 \nREADY.\n?SUBSCRIPT OUT OF RANGE\nREADY.\n?SUBSCRIPT OUT OF RANGE\nREADY.\n"),
+    ];
+    emit_sessions(w, "C06", &cases);
+}
+
+/// C08: the Integer addition NEXT performs is checked like any other
+pub fn gen_c08<W: Write>(w: &mut W, _tier: &str, _seed: u64) {
+    let cases: Vec<(Vec<&str>, &str)> = vec![
+        (vec!["10 FOR I%=32766 TO 32767:PRINT I%;:NEXT", "20 PRINT \"done\"", "RUN"], " 32766  32767 \n?OVERFLOW IN 10\nREADY.\n"),
+        (vec!["10 DEFINT J:FOR J=-32767 TO -32768 STEP -1:PRINT J;:NEXT", "RUN"], "-32767 -32768 \n?OVERFLOW IN 10\nREADY.\n"),
+        (vec!["10 FOR I%=1 TO 30000 STEP 20000:PRINT I%;:NEXT", "RUN"], " 1  20001 \n?OVERFLOW IN 10\nREADY.\n"),
+        (vec!["10 FOR I%=32760 TO 32766 STEP 3:PRINT I%;:NEXT:PRINT I%", "RUN"], " 32760  32763  32766 \n?OVERFLOW IN 10\nREADY.\n"),
+        (vec!["10 FOR I%=-32760 TO -32768 STEP -4:PRINT I%;:NEXT:PRINT I%", "RUN"], "-32760 -32764 -32768 \n?OVERFLOW IN 10\nREADY.\n"),
+        (vec!["10 FOR I%=1 TO 3:NEXT:PRINT I%", "RUN"], " 4 \nREADY.\n"),
+        (vec!["A%=32767:A%=A%+1", "PRINT A%", "A%=-32768:A%=A%-1", "PRINT A%;-A%"], "?OVERFLOW\nREADY.\n 32767 \nREADY.\n?OVERFLOW\nREADY.\n-32768 \n?OVERFLOW\nREADY.\n"),
+    ];
+    emit_sessions(w, "C08", &cases);
+}
+
+/// C09 / C10: a refused direct DATA adds no constant; a deleted DEF line takes its function with it
+pub fn gen_c09_c10_sessions<W: Write>(w: &mut W, prop: &str) {
+    if prop == "C09" {
+        let cases: Vec<(Vec<&str>, &str)> = vec![
+            (vec!["10 READ A:PRINT A", "20 READ B:PRINT B", "30 DATA 1", "RUN", "DATA 9", "RUN", "RUN 20"], " 1 \n?OUT OF DATA IN 20\nREADY.\n?ILLEGAL DIRECT\nREADY.\n 1 \n?OUT OF DATA IN 20\nREADY.\n 1 \nREADY.\n"),
+            (vec!["10 DATA 1,2", "20 READ A,B,C", "PRINT 0", "IF 1 THEN DATA 7,8", "RUN", "READ X:PRINT X"], " 0 \nREADY.\n?ILLEGAL DIRECT\nREADY.\n?OUT OF DATA IN 20\nREADY.\n?OUT OF DATA\nREADY.\n"),
+        ];
+        emit_sessions(w, "C09", &cases);
+    } else {
+        let cases: Vec<(Vec<&str>, &str)> = vec![
+            (vec!["10 DEF FNA(X)=X*2", "20 PRINT FNA(2)", "RUN", "10", "PRINT FNA(5)"], " 4 \nREADY.\n?UNDEFINED USER FUNCTION\nREADY.\n"),
+            (vec!["10 DEF FNA(X)=X*2", "20 PRINT FNA(2)", "RUN", "DELETE 10", "PRINT FNA(5)"], " 4 \nREADY.\nREADY.\n?UNDEFINED USER FUNCTION\nREADY.\n"),
+            (vec!["10 DEF FNA(X)=X*2", "20 PRINT FNA(2)", "RUN", "15 REM", "PRINT FNA(5)"], " 4 \nREADY.\n?UNDEFINED USER FUNCTION\nREADY.\n"),
+            (vec!["10 DEF FNA(X)=X*2", "20 PRINT FNA(2)", "RUN", "20", "PRINT FNA(5)"], " 4 \nREADY.\n?UNDEFINED USER FUNCTION\nREADY.\n"),
+            (vec!["10 DEF FNA(X)=X*2", "20 PRINT FNA(2)", "RUN", "PRINT FNA(5)", "CLEAR", "PRINT FNA(5)"], " 4 \nREADY.\n 10 \nREADY.\nREADY.\n?UNDEFINED USER FUNCTION\nREADY.\n"),
+        ];
+        emit_sessions(w, "C10", &cases);
     }
 }
